@@ -1,30 +1,50 @@
-import PwVerif.Model.Conn
+import PwVerif.Model.ConnOps
 import PwVerif.Model.Proto
-open PwVerif PwVerif.Conn PwVerif.Proto
+open PwVerif PwVerif.Conn PwVerif.ConnOps PwVerif.Proto
 
 structure St where
   g : G
   dom : List Nat
+  /-- channels whose `connect`/`disconnect` currently refuse (fault injection of the harness; empty on
+  every history of the unchanged library) -/
+  locked : List Nat
+
+def St.me (s : St) : May := fun c => !s.locked.contains c
 
 def parseKind : String → Option Kind
   | "di" => some .dataIn | "do" => some .dataOut | "si" => some .sigIn | "so" => some .sigOut
   | _ => none
 
 def showRes : Res → String | .ok => "ok" | .typeErr => "typeErr" | .connErr => "connErr"
+def showOut : Out → String | .ok => "ok" | .typeErr => "typeErr" | .connErr => "connErr" | .locked => "locked"
 
+def showRep (rep : List (Nat × Nat)) : String :=
+  if rep.isEmpty then "-" else ",".intercalate (rep.map fun p => s!"{p.1}>{p.2}")
+
+/-- only the non-empty lists, in the order of declaration -/
 def obs (s : St) : String :=
-  " ".intercalate (s.dom.map fun c => s!"{c}:{showNats (s.g.conns c)}")
+  let toks := (s.dom.filter fun c => !(s.g.conns c).isEmpty).map fun c => s!"{c}:{showNats (s.g.conns c)}"
+  if toks.isEmpty then "none" else " ".intercalate toks
+
+def insertSorted (x : Nat) : List Nat → List Nat
+  | [] => [x]
+  | y :: ys => if x ≤ y then x :: y :: ys else y :: insertSorted x ys
+
+def sortNats (l : List Nat) : List Nat := l.foldl (fun acc x => insertSorted x acc) []
+
+def parseGroup (w : String) : Option (List Nat) :=
+  if w = "" then some [] else nats (w.splitOn ",")
 
 def init : St :=
   { g := { kind := fun _ => .dataIn, owner := fun _ => 0, valid := fun _ _ => true, conns := fun _ => [] },
-    dom := [] }
+    dom := [], locked := [] }
 
 def step (s : St) (ws : List String) : St × List String :=
   match ws with
   | ["chan", c, k, o] =>
     match c.toNat?, parseKind k, o.toNat? with
     | some c, some k, some o =>
-      ({ g := { s.g with kind := updF s.g.kind c k, owner := updF s.g.owner c o }, dom := s.dom ++ [c] }, [])
+      ({ s with g := { s.g with kind := updF s.g.kind c k, owner := updF s.g.owner c o }, dom := s.dom ++ [c] }, [])
     | _, _, _ => (s, ["bad-op"])
   | ["invalid", a, b] =>
     match a.toNat?, b.toNat? with
@@ -32,43 +52,72 @@ def step (s : St) (ws : List String) : St × List String :=
       let v := s.g.valid
       ({ s with g := { s.g with valid := fun x y => if (x = a ∧ y = b) ∨ (x = b ∧ y = a) then false else v x y } }, [])
     | _, _ => (s, ["bad-op"])
+  | ["lock", c] =>
+    match c.toNat? with
+    | some c => ({ s with locked := c :: s.locked.erase c }, [])
+    | none => (s, ["bad-op"])
+  | ["unlock", c] =>
+    match c.toNat? with
+    | some c => ({ s with locked := s.locked.erase c }, [])
+    | none => (s, ["bad-op"])
   | "connect" :: a :: bs =>
     match a.toNat?, nats bs with
     | some a, some bs =>
-      let (g, r) := Conn.step s.g (.connect a bs)
+      let (g, r) := connectG s.me s.g a bs
       let s' := { s with g }
-      (s', [showRes r ++ " " ++ obs s'])
+      (s', [showOut r ++ " - " ++ obs s'])
     | _, _ => (s, ["bad-op"])
   | "disconnect" :: a :: bs =>
     match a.toNat?, nats bs with
     | some a, some bs =>
-      let s' := { s with g := (Conn.step s.g (.disconnect a bs)).1 }
-      (s', ["ok " ++ obs s'])
+      let (g, rep, raised) := disconnectG s.me s.g a bs
+      let s' := { s with g }
+      (s', [(if raised then "locked -" else "ok " ++ showRep rep) ++ " " ++ obs s'])
     | _, _ => (s, ["bad-op"])
   | ["disconnectall", a] =>
     match a.toNat? with
     | some a =>
-      let s' := { s with g := (Conn.step s.g (.disconnectAll a)).1 }
-      (s', ["ok " ++ obs s'])
+      let (g, rep, raised) := disconnectAllG s.me s.g a
+      let s' := { s with g }
+      (s', [(if raised then "locked -" else "ok " ++ showRep rep) ++ " " ++ obs s'])
     | _ => (s, ["bad-op"])
   | "disconnectchans" :: cs =>
     match nats cs with
     | some cs =>
-      let s' := { s with g := (Conn.step s.g (.disconnectChans cs)).1 }
-      (s', ["ok " ++ obs s'])
+      let (g, rep, raised) := disconnectChansG s.me s.g cs []
+      let s' := { s with g }
+      (s', [(if raised then "locked -" else "ok " ++ showRep rep) ++ " " ++ obs s'])
     | _ => (s, ["bad-op"])
+  | "dropchans" :: cs =>
+    -- `remove_child`: the node's own `disconnect()`, the report is not returned
+    match nats cs with
+    | some cs =>
+      let (g, _, raised) := disconnectChansG s.me s.g cs []
+      let s' := { s with g }
+      (s', [(if raised then "locked -" else "ok -") ++ " " ++ obs s'])
+    | _ => (s, ["bad-op"])
+  | ["flags", groups] =>
+    -- `connected` of each panel group and of the owner, `connections` of each group (as a sorted set)
+    match (groups.splitOn "|").mapM parseGroup with
+    | some gs =>
+      let bits := gs.map fun cs => if anyConnected s.g cs then "1" else "0"
+      let whole := if anyConnected s.g gs.flatten then "1" else "0"
+      let sets := gs.map fun cs => showNats (sortNats (panelConnections s.g cs))
+      (s, ["flags " ++ "".intercalate bits ++ whole ++ " " ++ "|".intercalate sets])
+    | none => (s, ["bad-op"])
   | ["copyconns", a, b] =>
     match a.toNat?, b.toNat? with
     | some a, some b =>
       let (g, r) := Conn.step s.g (.copyConns a b)
       let s' := { s with g }
-      (s', [showRes r ++ " " ++ obs s'])
+      (s', [showRes r ++ " - " ++ obs s'])
     | _, _ => (s, ["bad-op"])
   | "setconns" :: c :: l =>
     -- state observed on the implementation after an operation that is not part of this model
     match c.toNat?, nats l with
     | some c, some l => ({ s with g := { s.g with conns := updF s.g.conns c l } }, [])
     | _, _ => (s, ["bad-op"])
+  | ["clearconns"] => ({ s with g := { s.g with conns := fun _ => [] } }, [])
   | "copyio" :: fh :: ps =>
     -- pairs are written  my:other  with my = - when missing
     let parsed : Option (List (Option Nat × Nat)) := ps.mapM fun w =>
@@ -77,12 +126,12 @@ def step (s : St) (ws : List String) : St × List String :=
         | some o => if m = "-" then some (none, o) else (m.toNat?).map fun m => (some m, o)
         | none => none
       | _ => none
-    match parsed with
-    | some pairs =>
-      let (g, r) := Conn.step s.g (.copyIo (fh = "hard") pairs)
+    match parsed, (if fh = "hard" then some true else if fh = "soft" then some false else none) with
+    | some pairs, some hard =>
+      let (g, r) := Conn.step s.g (.copyIo hard pairs)
       let s' := { s with g }
-      (s', [showRes r ++ " " ++ obs s'])
-    | none => (s, ["bad-op"])
+      (s', [showRes r ++ " - " ++ obs s'])
+    | _, _ => (s, ["bad-op"])
   | _ => (s, ["bad-op"])
 
 def main : IO Unit := Proto.run init step
